@@ -63,7 +63,14 @@ def gen_store(rng, tier, seed):
     for _ in range(n):
         ns = rng.choice([0, 1, 2, 'default', 'default'])
         r = rng.random()
-        if r < 0.5:
+        if r < 0.08:
+            # two mutations in flight at once (gather) on two store objects, for different peers: both must take effect
+            ns2 = rng.choice([0, 1, 2, 'default'])
+            pa, pb = rng.sample(range(3), 2)
+            a = ['update', ns, pa, _gen_keys(rng)]
+            b = rng.choice([['update', ns2, pb, _gen_keys(rng)], ['delete', ns2, pb]])
+            ops.append(['both', a, b])
+        elif r < 0.5:
             ops.append(['update', ns, rng.randrange(3), _gen_keys(rng)])
         elif r < 0.65:
             ops.append(['delete', ns, rng.randrange(3)])
@@ -83,13 +90,16 @@ def gen_store(rng, tier, seed):
             'precreate_dir': rng.random() < 0.5, 'long_lived': rng.random() < 0.5}
 
 
+_LOOP = None
+
+
 def _run_coro(coro):
-    try:
-        coro.send(None)
-    except StopIteration as e:
-        return e.value
-    coro.close()
-    raise RuntimeError('key store coroutine suspended (real await inside)')
+    """Run a store coroutine to completion on a private event loop (the store may await real things: a lock, a worker thread)."""
+    global _LOOP
+    import asyncio
+    if _LOOP is None or _LOOP.is_closed():
+        _LOOP = asyncio.new_event_loop()
+    return _LOOP.run_until_complete(coro)
 
 
 class Model:
@@ -234,6 +244,10 @@ class Runner:
         faulty = False
         for i, op in enumerate(case['ops']):
             kind = op[0]
+            if kind == 'both':
+                if not self.run_both(op, faulty):
+                    return
+                continue
             ns = op[1]
             st = self.store(ns)
             first = self.fs.step + 1
@@ -310,6 +324,50 @@ class Runner:
             self.check_all(kind, faulty)
             if self.violations:
                 return
+
+    def run_both(self, op, faulty):
+        """Two mutations started together. No fault is planned inside (their steps are not in step_ranges)."""
+        import asyncio
+        from bumble.keys import JsonKeyStore
+
+        _, a, b = op
+        # the default-namespace rule depends on what the file holds when the operation runs: with two in flight that moment is
+        # not defined, so a pair that involves the default instance is run one after the other
+        concurrent = a[1] != 'default' and b[1] != 'default'
+
+        def coro(o):
+            # two objects even for one namespace: two users of the file in one process
+            st = JsonKeyStore(None if o[1] == 'default' else NAMESPACES[o[1]], FILE)
+
+            async def go():
+                try:
+                    if o[0] == 'update':
+                        await st.update(PEERS[o[2]], _to_pairing_keys(o[3]))
+                    else:
+                        await st.delete(PEERS[o[2]])
+                except KeyError:
+                    pass
+            return go()
+        saved_plan, self.fs.plan = self.fs.plan, None
+        try:
+            if concurrent:
+                async def both():
+                    await asyncio.gather(coro(a), coro(b))
+                _run_coro(both())
+            else:
+                _run_coro(coro(a))
+                _run_coro(coro(b))
+        except simfs.Unmodelled as e:
+            raise HarnessError(str(e))
+        except Exception as e:
+            self.v('raised', f'store:concurrent-mutations-raised:{type(e).__name__}', f'{a[0]}({a[1]}) + {b[0]}({b[1]}) started together raised {e!r}')
+            return False
+        finally:
+            self.fs.plan = saved_plan
+        self.model.apply(a)
+        self.model.apply(b)
+        self.check_all('two-mutations-in-flight' if concurrent else 'two-mutations', faulty)
+        return not self.violations
 
     def check_get(self, ns, peer, got, faulty):
         tag = 'after-fault' if faulty else 'clean'
